@@ -175,10 +175,10 @@ Fixpoint rows_loop (E : env) (fuel : nat) (nech ncol total : Z) (iech pos : Z) (
         do orow, m' <- read_vec_raw E 14 ncol pos total m;
         match orow with
         | None => Ret None m'
-        | Some ws => rows_loop E fuel' nech ncol total (iech + 1) (pos + ncol) (rev ws ++ acc) m'
+        | Some ws => rows_loop E fuel' nech ncol total (iech + 1) (pos + ncol) (frev ws ++ acc) m'
         end
     end
-  else Ret (Some (rev acc)) m.
+  else Ret (Some (frev acc)) m.
 
 (* _loadData(ELoadBy::SAMPLE): array[icol * nech + iech] = tab[icol + ncol * iech] *)
 Definition load_data (ncol nech : Z) (tab : list num) : list num :=
@@ -245,17 +245,17 @@ Fixpoint grid_header (fuel : nat) (ndim idim : Z) (acc : list (Z * num * num * n
     | O => Bad (Hang 22)
     | S fuel' =>
         do onx, m1 <- read_int m;
-        match onx with None => Ret (false, rev acc) m1 | Some nx =>
+        match onx with None => Ret (false, frev acc) m1 | Some nx =>
         do ox0, m2 <- read_double m1;
-        match ox0 with None => Ret (false, rev acc) m2 | Some x0 =>
+        match ox0 with None => Ret (false, frev acc) m2 | Some x0 =>
         do odx, m3 <- read_double m2;
-        match odx with None => Ret (false, rev acc) m3 | Some dx =>
+        match odx with None => Ret (false, frev acc) m3 | Some dx =>
         do oan, m4 <- read_double m3;
-        match oan with None => Ret (false, rev acc) m4 | Some an =>
+        match oan with None => Ret (false, frev acc) m4 | Some an =>
         grid_header fuel' ndim (idim + 1) ((nx, x0, dx, an) :: acc) m4
         end end end end
     end
-  else Ret (true, rev acc) m.
+  else Ret (true, frev acc) m.
 
 Definition prodZ (l : list Z) : Z := fold_right Z.mul 1 l.
 
@@ -309,7 +309,7 @@ Fixpoint table_rows (fuel0 fuel : nat) (nrows ncols irow : Z) (acc : list num) (
         | Some acc' => table_rows fuel0 fuel' nrows ncols (irow + 1) acc' m1
         end
     end
-  else Ret (Some (rev acc)) m.
+  else Ret (Some (frev acc)) m.
 Definition table_deserialize (E : env) (m : mon) : res (option table) :=
   do oncols, m1 <- read_int m;
   match oncols with None => Ret None m1 | Some ncols =>
@@ -344,7 +344,7 @@ Fixpoint pl_loop (E : env) (fuel : nat) (np i : Z) (accx accy : list num) (m : m
         | _ => Ret None m1
         end
     end
-  else Ret (Some (mkPL (rev accx) (rev accy))) m.
+  else Ret (Some (mkPL (frev accx) (frev accy))) m.
 Definition polyline_deserialize (E : env) (m : mon) : res (option polyline) :=
   do _, m0 <- alloc E 41 2 8 m;                     (* VectorDouble buffer(2) *)
   do onp, m1 <- read_int m0;
@@ -378,7 +378,7 @@ Fixpoint polygons_loop (E : env) (fuel : nat) (npol i : Z) (acc : list polyelem)
                        (if 3 <=? zlen (pl_x (pe_line pe)) then pe :: acc else acc) m1
         end
     end
-  else Ret (Some (rev acc)) m.
+  else Ret (Some (frev acc)) m.
 Definition polygons_deserialize (E : env) (m : mon) : res (option (list polyelem)) :=
   do onpol, m1 <- read_int m;
   match onpol with None => Ret None m1 | Some npol =>
@@ -396,7 +396,7 @@ Fixpoint faults_loop (E : env) (fuel : nat) (n i : Z) (acc : list polyline) (m :
         | Some pl => faults_loop E fuel' n (i + 1) (pl :: acc) m1
         end
     end
-  else Ret (Some (rev acc)) m.
+  else Ret (Some (frev acc)) m.
 Definition faults_deserialize (E : env) (m : mon) : res (option (list polyline)) :=
   do on, m1 <- read_int m;
   match on with None => Ret None m1 | Some n =>
